@@ -836,6 +836,14 @@ func genViews(c *core.Ctx) {
 				}
 				inputs = append(inputs, b)
 			}
+			// every option type x size x inner-length threshold, as the last option and followed by another one
+			for _, opts := range ndpgen.Boundary(r) {
+				b := append(c.RandBytes(fixed), opts...)
+				if view == "ICMP6RouterSolicitation" {
+					b[0] = 133
+				}
+				inputs = append(inputs, b)
+			}
 		}
 		if view == "IP6" {
 			// RFC 8200 packets whose 16-bit payload length makes PayloadLen+40 pass 65535: the length test of
